@@ -46,6 +46,24 @@ def plant(t, rng, tg, n):
                 tgt[5].append(["zzAttr", "1"])
         elif k == "softish" and tgt[1] == "eml":
             tgt[8].append(impl.T(rng.choice(["software", "protocol"]), None, [impl.T("title", "t")]))
+    # names a rule allows but no element is known by (computed from the live tables): such a child passes the parent's
+    # "allowed" test and is met by the unknown-name branch only in the recursive call
+    import lang
+    for _, x in list(gen.nodes_of(t)):
+        rn = tg.ri.mappings.get(x[1])
+        sp = tg.ri.spec.get(rn) if rn else None
+        if sp is None:
+            continue
+        ghost = [c for c in dict.fromkeys(lang.names(sp)) if c not in tg.ri.mappings]
+        if ghost and rng.random() < 0.5:
+            x[8].insert(rng.randint(0, len(x[8])), impl.T(rng.choice(ghost), None, [impl.T("title", "t")] if rng.random() < 0.5 else []))
+    # several same-named offenders under one parent
+    if rng.random() < 0.3:
+        nodes = [x for _, x in gen.nodes_of(t)]
+        tgt = rng.choice(nodes)
+        e = rng.choice(known)
+        for _ in range(rng.choice([2, 3])):
+            tgt[8].insert(rng.randint(0, len(tgt[8])), tg.min_tree(e, rng))
     gen.strip_ids(t)
 
 
